@@ -769,6 +769,10 @@ pub fn run_transport(cfg: &TransportCfg, sc: &mut Sc) {
             let o = sc.ex.t_read(rd, &msg, cap);
             sc.check_panic(&o, "t_read");
             sc.count(&format!("t.read.{what}"));
+            if o == Out::Panic && what != "next" {
+                sc.viol("C04", format!("{}: delivery of a non-genuine message ({what}, {} bytes) panicked instead of returning an error", cfg.name, msg.len()));
+            }
+            let mixed_backends = cfg.res_i != cfg.res_r;
             // abstract receiver: accept iff msg is the sender's message number recv_n under the same key epoch
             let dd = &mut dirs[d];
             let genuine = dd.sent.iter().find(|(n, m, _, key)| *n == dd.recv_n && *m == msg && *key == dd.recv_key);
@@ -781,6 +785,9 @@ pub fn run_transport(cfg: &TransportCfg, sc: &mut Sc) {
                     if *p != exp {
                         sc.viol("C04", format!("{}: accepted message returned a different payload", cfg.name));
                     }
+                    if p.len() != exp.len() {
+                        sc.viol("C14", format!("{}: read of a {}-byte message into a {cap}-byte buffer reports {} payload bytes, not {}", cfg.name, msg.len(), p.len(), exp.len()));
+                    }
                     dd.recv_n += 1;
                     sc.count("t.accepted");
                 },
@@ -791,11 +798,20 @@ pub fn run_transport(cfg: &TransportCfg, sc: &mut Sc) {
                 (Out::Ok(_), None) => {
                     sc.viol("C04", format!("{}: non-genuine delivery ({what}) accepted at receiving nonce {}", cfg.name, dd.recv_n));
                     sc.viol("C05", format!("{}: out-of-order or foreign delivery ({what}) accepted at receiving nonce {}", cfg.name, dd.recv_n));
+                    if dd.sent.iter().any(|(n, m, _, key)| *n == dd.recv_n && *m == msg && *key != dd.recv_key) {
+                        sc.viol("C15", format!("{}: message sent under key {} accepted by a receiver that holds key {}", cfg.name, dd.sent.iter().find(|(n, m, ..)| *n == dd.recv_n && *m == msg).map_or("?", |x| x.3.as_str()), dd.recv_key));
+                    }
                     dd.recv_n = dd.recv_n.wrapping_add(1);
                 },
                 (Out::Err(e), Some(_)) if !short_cap && dd.recv_n != u64::MAX => {
                     sc.viol("C05", format!("{}: the next in-order message was rejected: {e}", cfg.name));
                     sc.viol("C04", format!("{}: the peer's genuine message was rejected: {e}", cfg.name));
+                    if dd.recv_key != "k" {
+                        sc.viol("C15", format!("{}: after key changes both sides hold {} but the next message is rejected: {e}", cfg.name, dd.recv_key));
+                    }
+                    if mixed_backends {
+                        sc.viol("C20", format!("{}: endpoints on backends {} / {} do not interoperate (key {}): {e}", cfg.name, cfg.res_i, cfg.res_r, dd.recv_key));
+                    }
                 },
                 (Out::Err(_), _) => {
                     sc.count("t.rejected");
@@ -938,6 +954,31 @@ pub fn run_stateless(cfg: &TransportCfg, sc: &mut Sc) {
     let mut skey = ["k".to_string(), "k".to_string()];
     let mut rkey = ["k".to_string(), "k".to_string()];
     let mut rekeyed = false;
+    // boundary payload sizes: the largest legal payloads must round-trip, one more must be refused (C14, C16)
+    {
+        // (done before any key change so that both sides are certainly in sync)
+        for plen in [65519usize, [65518usize, 65504, 65503][r.below(3)]] {
+            let p = r.bytes(plen);
+            let n = r.next() % 1000;
+            let o = sc.ex.st_write(1, n, &p, plen + 16);
+            sc.check_panic(&o, "st_write at the size limit");
+            match o.bytes().map(<[u8]>::to_vec) {
+                Some(m) => {
+                    let o2 = sc.ex.st_read(2, n, &m, plen);
+                    sc.check_panic(&o2, "st_read at the size limit");
+                    if o2.bytes() != Some(p.as_slice()) {
+                        sc.viol("C16", format!("{}: {plen}-byte payload written under nonce {n} is not read back: {:?}", cfg.name, o2.err()));
+                        sc.viol("C14", format!("{}: stateless read of a legal {}-byte message failed: {:?}", cfg.name, m.len(), o2.err()));
+                    }
+                },
+                None => sc.viol("C14", format!("{}: stateless write of a legal {plen}-byte payload failed: {o:?}", cfg.name)),
+            }
+        }
+        let o = sc.ex.st_write(1, 1, &vec![0u8; 65520], 70000);
+        if o.err() != Some("Input") {
+            sc.viol("C14", format!("{}: stateless write of a 65520-byte payload gave {o:?}", cfg.name));
+        }
+    }
     for step in 0..cfg.steps {
         let d = if oneway { 0 } else { r.below(2) };
         let (w, rd) = if d == 0 { (1u32, 2u32) } else { (2u32, 1u32) };
@@ -1070,6 +1111,9 @@ pub fn run_stateless(cfg: &TransportCfg, sc: &mut Sc) {
                 let cap = p.len() + [0usize, 7, 16, 40][r.below(4)];
                 let o = sc.ex.st_read(rd2, wn, &bad, cap);
                 sc.check_panic(&o, "st_read tampered");
+                if o == Out::Panic {
+                    sc.viol("C04", format!("{}: tampered stateless message panicked instead of returning an error", cfg.name));
+                }
                 if o.is_ok() {
                     sc.viol("C04", format!("{}: tampered stateless message accepted", cfg.name));
                 } else if p.len() >= 16 && sc.ex.last_buf.windows(p.len()).any(|w| w == p.as_slice()) {
@@ -1082,6 +1126,9 @@ pub fn run_stateless(cfg: &TransportCfg, sc: &mut Sc) {
                 let o = sc.ex.st_read(rd2, wn, &m[..cut], 64);
                 sc.check_panic(&o, "st_read shorter than a tag");
                 sc.count("st.read_short");
+                if o == Out::Panic {
+                    sc.viol("C04", format!("{}: stateless message truncated to {cut} bytes panicked instead of returning an error", cfg.name));
+                }
                 if o.is_ok() {
                     sc.viol("C04", format!("{}: stateless message truncated to {cut} bytes accepted", cfg.name));
                 }
@@ -1094,28 +1141,26 @@ pub fn run_stateless(cfg: &TransportCfg, sc: &mut Sc) {
             let _ = rd;
         }
     }
-    // boundary payload sizes: the largest legal payloads must round-trip, one more must be refused (C14, C16)
-    if !rekeyed {
-        for plen in [65519usize, 65518, 65504, 65503] {
-            let p = r.bytes(plen);
-            let n = r.next() % 1000;
-            let o = sc.ex.st_write(1, n, &p, plen + 16);
-            sc.check_panic(&o, "st_write at the size limit");
-            match o.bytes().map(<[u8]>::to_vec) {
-                Some(m) => {
-                    let o2 = sc.ex.st_read(2, n, &m, plen);
-                    sc.check_panic(&o2, "st_read at the size limit");
-                    if o2.bytes() != Some(p.as_slice()) {
-                        sc.viol("C16", format!("{}: {plen}-byte payload written under nonce {n} is not read back: {:?}", cfg.name, o2.err()));
-                        sc.viol("C14", format!("{}: stateless read of a legal {}-byte message failed: {:?}", cfg.name, m.len(), o2.err()));
-                    }
-                },
-                None => sc.viol("C14", format!("{}: stateless write of a legal {plen}-byte payload failed: {o:?}", cfg.name)),
-            }
+    // one-way rules in stateless transport (C11): the responder cannot write, the initiator cannot read,
+    // and the responder can read what the initiator writes
+    if oneway {
+        let o = sc.ex.st_write(2, 7, b"x", 64);
+        sc.check_panic(&o, "st_write by a one-way responder");
+        if o.err() != Some("State(OneWay)") {
+            sc.viol("C11", format!("{}: responder write in one-way stateless transport gave {o:?}", cfg.name));
         }
-        let o = sc.ex.st_write(1, 1, &vec![0u8; 65520], 70000);
-        if o.err() != Some("Input") {
-            sc.viol("C14", format!("{}: stateless write of a 65520-byte payload gave {o:?}", cfg.name));
+        let o = sc.ex.st_read(1, 7, &[0u8; 32], 64);
+        sc.check_panic(&o, "st_read by a one-way initiator");
+        if o.err() != Some("State(OneWay)") {
+            sc.viol("C11", format!("{}: initiator read in one-way stateless transport gave {o:?}", cfg.name));
+        }
+        if !rekeyed {
+            if let Some(m) = sc.ex.st_write(1, 9, b"one-way", 64).bytes().map(<[u8]>::to_vec) {
+                let o = sc.ex.st_read(2, 9, &m, 64);
+                if o.bytes() != Some(b"one-way".as_slice()) {
+                    sc.viol("C11", format!("{}: responder cannot read the initiator's message in one-way stateless transport: {o:?}", cfg.name));
+                }
+            }
         }
     }
     // equality with the stateful sender: fresh identical pair in stateful mode
